@@ -40,6 +40,7 @@ fn id_pair(ln1: usize, lv1: usize, ln2: usize, lv2: usize) {
 
 /// id: boundary-shifted splits of 3 bytes: name "xy" + value "z"  vs  name "x" + value "yz".
 #[cfg_attr(kani, kani::proof, kani::unwind(6),
+    kani::stub(std::fmt::format, fmt_stub),
     kani::stub(<[crate::proto::LabelPair]>::sort, sort_stub),
     kani::stub(<fnv::FnvHasher as std::hash::Hasher>::write, fnv_write_injective))]
 pub fn c15_id_boundary_shift_21_vs_12() {
@@ -47,6 +48,7 @@ pub fn c15_id_boundary_shift_21_vs_12() {
 }
 /// id: name "xy" + empty value  vs  name "x" + value "y".
 #[cfg_attr(kani, kani::proof, kani::unwind(6),
+    kani::stub(std::fmt::format, fmt_stub),
     kani::stub(<[crate::proto::LabelPair]>::sort, sort_stub),
     kani::stub(<fnv::FnvHasher as std::hash::Hasher>::write, fnv_write_injective))]
 pub fn c15_id_boundary_shift_20_vs_11() {
@@ -54,6 +56,7 @@ pub fn c15_id_boundary_shift_20_vs_11() {
 }
 /// id: same shape (2-byte name, 2-byte value): equal exactly when all bytes are equal.
 #[cfg_attr(kani, kani::proof, kani::unwind(6),
+    kani::stub(std::fmt::format, fmt_stub),
     kani::stub(<[crate::proto::LabelPair]>::sort, sort_stub),
     kani::stub(<fnv::FnvHasher as std::hash::Hasher>::write, fnv_write_injective))]
 pub fn c15_id_same_shape_22() {
@@ -63,6 +66,7 @@ pub fn c15_id_same_shape_22() {
 /// id with two const labels: independent of insertion order and of map iteration order; values
 /// are taken in label-name order.
 #[cfg_attr(kani, kani::proof, kani::unwind(6),
+    kani::stub(std::fmt::format, fmt_stub),
     kani::stub(<[crate::proto::LabelPair]>::sort, sort_stub),
     kani::stub(<fnv::FnvHasher as std::hash::Hasher>::write, fnv_write_injective))]
 pub fn c15_id_two_const_labels_order_independent() {
@@ -145,6 +149,7 @@ pub fn c15_dim_hash_const_vs_variable() {
 /// id with two const labels where one value is empty: ("", v) and (w, "") are told apart (the
 /// position of an empty value matters), and equal exactly when both positions agree.
 #[cfg_attr(kani, kani::proof, kani::unwind(6),
+    kani::stub(std::fmt::format, fmt_stub),
     kani::stub(<[crate::proto::LabelPair]>::sort, sort_stub),
     kani::stub(<fnv::FnvHasher as std::hash::Hasher>::write, fnv_write_injective))]
 pub fn c15_id_empty_value_position() {
